@@ -107,6 +107,15 @@ def gen_C06():
         e = re.sub(r"(?:core::)?mem::size_of::<\s*Window\s*>\(\)", str(bits // 8), e)
         return eval_int(e)
     f.n("sw_window_width", _try(width), SW)
+    # glue the harness only mirrors (space/application.rs validate_and_decrypt_packet): decrypt_packet is called
+    # before is_duplicate, and the duplicate branch returns a connection error of decrypt_packet
+    APP = "quic/s2n-quic-transport/src/space/application.rs"
+    app = _src(APP)
+    shape = re.search(r"let\s+decrypted\s*=\s*self\.key_set\.decrypt_packet\(.*?"
+                      r"if\s+self\.is_duplicate\(packet_number,\s*path_id,\s*path,\s*publisher\)\s*\{\s*"
+                      r"if\s+let\s+Err\(err\s*@\s*ProcessingError::ConnectionError\(_\)\)\s*=\s*decrypted\s*\{\s*return\s+Err\(err\);\s*\}\s*"
+                      r"return\s+Err\(ProcessingError::Other\);\s*\}.*?decrypted\.map\(", app, re.S)
+    f.n("dup_branch_propagates_connection_error", 1 if shape else None, APP)
     # stateless reset token length
     f.const("reset_token_len", TOK, r"pub\s+const\s+LEN\s*:\s*usize\s*=\s*([^;]+);")
     return f
